@@ -83,7 +83,8 @@ def parseTy : String → Option IntTy
 def parseOrder : String → Option Order
   | "be" => some .be | "le" => some .le | "ne" => some .le | _ => none
 
-def okAlign (a s : Nat) : Bool := (a == 1 || a == 2 || a == 4 || a == 8 || a == 16) && s ≤ 64 && s % a == 0
+def okAlign (a s : Nat) : Bool :=
+  ((a == 1 || a == 2 || a == 4 || a == 8 || a == 16) && s ≤ 64 && s % a == 0) || ((a == 32 || a == 64) && s ≤ 128 && s % a == 0)
 
 /-- answer for an allocation result; `kind`: 0 = bytes, 1 = aligned bytes, 2 = typed -/
 def allocAnswer (x : Sess) (id : Nat) (r : M (AllocOut × St)) (hk : HKind) (owned : Bool)
@@ -279,8 +280,10 @@ def step (x : Sess) (toks : List String) : Step :=
     if !x.opts.file then { sess := some x, out := "bad-op" }
     else
       let fs := if x.removeOnDrop then none else x.file
+      -- every handle is detached/dropped and every arena value dropped: the memory is released exactly once
+      let um := if x.arenas.isEmpty then 0 else 1
       let x := { x with fs := fs, handles := [], arenas := [], closed := true }
-      { sess := some x, out := s!"r=ok {fileStr x.fs}" }
+      { sess := some x, out := s!"r=ok um={um} {fileStr x.fs}" }
   | ["flush"] => simple x "r=ok"
   | ["filehash"] => { sess := some x, out := s!"r=ok {fileStr x.file}" }
   | ["remove_on_drop", b] =>
